@@ -450,6 +450,77 @@ func vspecJSONStringsOK(doc string) bool {
 	return !in
 }
 
+// vspecJSONUnescapeControls undoes the JSON escapes that stand for control
+// characters (\u00XX, \n, \t, \r, \b, \f) inside string literals and leaves
+// everything else (in particular \\ and \") as it is: applied to a valid
+// payload it must give back the canonical JSON of the metadata that was set.
+func vspecJSONUnescapeControls(doc string) (string, bool) {
+	hexv := func(c byte) int {
+		switch {
+		case c >= '0' && c <= '9':
+			return int(c - '0')
+		case c >= 'a' && c <= 'f':
+			return int(c-'a') + 10
+		case c >= 'A' && c <= 'F':
+			return int(c-'A') + 10
+		}
+		return -1
+	}
+	out := ""
+	i := 0
+	for i < len(doc) {
+		c := doc[i]
+		if c != '\\' {
+			out += doc[i : i+1]
+			i++
+			continue
+		}
+		if i+1 >= len(doc) {
+			return "", false
+		}
+		e := doc[i+1]
+		switch e {
+		case 'n':
+			out += "\n"
+			i += 2
+		case 't':
+			out += "\t"
+			i += 2
+		case 'r':
+			out += "\r"
+			i += 2
+		case 'b':
+			out += "\b"
+			i += 2
+		case 'f':
+			out += "\f"
+			i += 2
+		case 'u':
+			if i+5 >= len(doc) {
+				return "", false
+			}
+			v := 0
+			for k := 2; k < 6; k++ {
+				h := hexv(doc[i+k])
+				if h < 0 {
+					return "", false
+				}
+				v = v*16 + h
+			}
+			if v < 0x20 {
+				out += string([]byte{byte(v)})
+			} else {
+				out += doc[i : i+6]
+			}
+			i += 6
+		default:
+			out += doc[i : i+2]
+			i += 2
+		}
+	}
+	return out, true
+}
+
 // a = {length of the symbolic string}
 func vh_C11_dsse(a []int) {
 	s := vBytes("byproduct", a[0])
@@ -464,6 +535,10 @@ func vh_C11_dsse(a []int) {
 		vKnown("KF-C11-control-chars", !vspecJSONStringsOK(string(raw)))
 		vAssert("C11.dsse-payload-type", derr == nil && e.envelope.PayloadType == "application/vnd.in-toto+json")
 		vAssert("C11.dsse-payload-is-a-valid-json-document-whatever-the-strings-contain", vspecJSONStringsOK(string(raw)))
+		if vspecJSONStringsOK(string(raw)) {
+			back, ok := vspecJSONUnescapeControls(string(raw))
+			vAssert("C11.dsse-payload-decodes-to-exactly-the-metadata-that-was-set", ok && back == vspecCanonLink(l))
+		}
 	}
 	vReach("C11.end")
 }
